@@ -36,6 +36,7 @@ import CaddyModel.C16.Lemmas
 import CaddyModel.C16.Witness
 import CaddyModel.C16.LexProps
 import CaddyModel.C16.HistProps
+import CaddyModel.C16.GlueProps
 
 namespace CaddyModel.C16
 
